@@ -4,6 +4,85 @@ import Dmn.Model.RefParserLayout
 
 namespace Dmn.GapLayout
 
+/-! ## Each skipper returns a suffix of its input -/
+
+def IsSuffix (s cs : List Nat) : Prop := ∃ p, cs = p ++ s
+
+theorem IsSuffix.refl (cs : List Nat) : IsSuffix cs cs := ⟨[], rfl⟩
+
+theorem IsSuffix.cons {s cs : List Nat} (c : Nat) (h : IsSuffix s cs) : IsSuffix s (c :: cs) := by
+  obtain ⟨p, hp⟩ := h
+  exact ⟨c :: p, by rw [hp]; rfl⟩
+
+theorem IsSuffix.trans {a b c : List Nat} (h1 : IsSuffix a b) (h2 : IsSuffix b c) : IsSuffix a c := by
+  obtain ⟨p, hp⟩ := h1
+  obtain ⟨q, hq⟩ := h2
+  exact ⟨q ++ p, by rw [hq, hp, List.append_assoc]⟩
+
+theorem IsSuffix.length_le {s cs : List Nat} (h : IsSuffix s cs) : s.length ≤ cs.length := by
+  obtain ⟨p, hp⟩ := h
+  rw [hp, List.length_append]; omega
+
+theorem IsSuffix.eq_of_length {s cs : List Nat} (h : IsSuffix s cs) (hl : cs.length ≤ s.length) : s = cs := by
+  obtain ⟨p, hp⟩ := h
+  have : p.length = 0 := by
+    have := congrArg List.length hp
+    rw [List.length_append] at this
+    omega
+  have : p = [] := List.eq_nil_of_length_eq_zero this
+  rw [hp, this]; rfl
+
+theorem skipWs_suffix : ∀ cs : List Nat, IsSuffix (skipWs cs) cs
+  | [] => IsSuffix.refl _
+  | c :: cs => by
+    unfold skipWs
+    split
+    · exact (skipWs_suffix cs).cons c
+    · exact IsSuffix.refl _
+
+theorem skipLine_suffix : ∀ cs : List Nat, IsSuffix (skipLine cs) cs
+  | [] => IsSuffix.refl _
+  | c :: cs => by
+    unfold skipLine
+    split
+    · exact IsSuffix.refl _
+    · exact (skipLine_suffix cs).cons c
+
+theorem skipBlock_suffix : ∀ cs : List Nat, IsSuffix (skipBlock cs) cs
+  | [] => IsSuffix.refl _
+  | [c] => by
+    simp only [skipBlock]
+    split
+    · exact ⟨[c], rfl⟩
+    · exact ⟨[c], rfl⟩
+  | c :: d :: ds => by
+    simp only [skipBlock]
+    split
+    · split
+      · exact ((IsSuffix.refl ds).cons d).cons c
+      · exact (skipBlock_suffix (d :: ds)).cons c
+    · exact (skipBlock_suffix (d :: ds)).cons c
+
+theorem skipComment_suffix : ∀ cs : List Nat, IsSuffix (skipComment cs) cs
+  | [] => IsSuffix.refl _
+  | [c] => by
+    simp only [skipComment]
+    split <;> exact IsSuffix.refl _
+  | c :: d :: ds => by
+    simp only [skipComment]
+    split
+    · split
+      · exact ((skipLine_suffix ds).cons d).cons c
+      · split
+        · exact ((skipBlock_suffix ds).cons d).cons c
+        · exact IsSuffix.refl _
+    · exact IsSuffix.refl _
+
+theorem skipStep_suffix (cs : List Nat) : IsSuffix (skipStep cs) cs :=
+  (skipComment_suffix _).trans (skipWs_suffix cs)
+
+/-! ## White space, comments, tokens -/
+
 theorem skipWs_append (g rest : List Nat) (h : allWs g = true) : skipWs (g ++ rest) = skipWs rest := by
   induction g with
   | nil => rfl
@@ -69,42 +148,66 @@ theorem skipComment_token (rest : List Nat) (h : startsToken rest = true) : skip
 
 theorem isWhitespace_lf : isWhitespace 0x0A = true := by decide
 
-/-- White space, one comment, white space: the lexer resumes exactly at the next token. -/
-theorem skipGap_gap (g : Gap) (rest : List Nat) (hg : g.ok = true) (hr : startsToken rest = true) :
-    skipGap (g.text ++ rest) = rest := by
-  obtain ⟨before, comment, after⟩ := g
-  simp only [Gap.ok, Bool.and_eq_true] at hg
-  obtain ⟨⟨hb, ha⟩, hc⟩ := hg
-  simp only [Gap.text, skipGap, List.append_assoc]
-  rw [skipWs_append _ _ hb]
-  cases comment with
-  | none =>
-    simp only [List.nil_append]
-    rw [skipWs_append _ _ ha, skipWs_token _ hr, skipComment_token _ hr, skipWs_token _ hr]
-  | some c =>
-    cases c with
-    | line body =>
-      simp only [Comment.ok] at hc
-      simp only [Comment.text, List.cons_append, List.append_assoc, List.nil_append]
-      have h1 : skipWs (0x2F :: 0x2F :: (body ++ 0x0A :: (after ++ rest))) =
-          0x2F :: 0x2F :: (body ++ 0x0A :: (after ++ rest)) := by
+/-! ## The loop -/
+
+theorem skipGap_token (rest : List Nat) (h : startsToken rest = true) : skipGap rest = rest := by
+  rw [skipGap.eq_def, skipStep, skipWs_token _ h, skipComment_token _ h]
+  simp
+
+/-- White space in front changes nothing. -/
+theorem skipGap_ws (w X : List Nat) (h : allWs w = true) : skipGap (w ++ X) = skipGap X := by
+  cases w with
+  | nil => rfl
+  | cons c w' =>
+    have hstep : skipStep ((c :: w') ++ X) = skipStep X := by
+      simp only [skipStep]; rw [skipWs_append _ _ h]
+    have hle := (skipStep_suffix X).length_le
+    rw [skipGap.eq_def, hstep]
+    rw [dif_pos (by simp only [List.cons_append, List.length_cons, List.length_append]; omega)]
+    by_cases hp : (skipStep X).length < X.length
+    · conv => rhs; rw [skipGap.eq_def, dif_pos hp]
+    · have : skipStep X = X := (skipStep_suffix X).eq_of_length (by omega)
+      rw [this]
+
+/-- A comment in front changes nothing. -/
+theorem skipGap_comment (c : Comment) (X : List Nat) (h : c.ok = true) : skipGap (c.text ++ X) = skipGap X := by
+  cases c with
+  | line body =>
+    simp only [Comment.ok] at h
+    have hstep : skipStep (Comment.text (.line body) ++ X) = 0x0A :: X := by
+      simp only [skipStep, Comment.text, List.cons_append, List.append_assoc, List.nil_append]
+      have h1 : skipWs (0x2F :: 0x2F :: (body ++ 0x0A :: X)) = 0x2F :: 0x2F :: (body ++ 0x0A :: X) := by
         simp [skipWs, isWhitespace, isVerticalSpace]
       rw [h1]
-      simp only [skipComment]
-      simp only [beq_self_eq_true, if_true]
-      rw [skipLine_body _ _ hc]
-      simp only [skipWs, isWhitespace_lf, if_true]
-      rw [skipWs_append _ _ ha, skipWs_token _ hr]
-    | block body =>
-      simp only [Comment.ok] at hc
-      simp only [Comment.text, List.cons_append, List.append_assoc, List.nil_append]
-      have h1 : skipWs (0x2F :: 0x2A :: (body ++ 0x2A :: 0x2F :: (after ++ rest))) =
-          0x2F :: 0x2A :: (body ++ 0x2A :: 0x2F :: (after ++ rest)) := by
+      simp only [skipComment, beq_self_eq_true, if_true]
+      exact skipLine_body _ _ h
+    rw [skipGap.eq_def, hstep]
+    rw [dif_pos (by simp [Comment.text]; omega)]
+    exact skipGap_ws [0x0A] X (by decide)
+  | block body =>
+    simp only [Comment.ok] at h
+    have hstep : skipStep (Comment.text (.block body) ++ X) = X := by
+      simp only [skipStep, Comment.text, List.cons_append, List.append_assoc, List.nil_append]
+      have h1 : skipWs (0x2F :: 0x2A :: (body ++ 0x2A :: 0x2F :: X)) =
+          0x2F :: 0x2A :: (body ++ 0x2A :: 0x2F :: X) := by
         simp [skipWs, isWhitespace, isVerticalSpace]
       rw [h1]
-      simp only [skipComment]
       have h2 : ((0x2A : Nat) == 0x2F) = false := by decide
-      simp only [beq_self_eq_true, if_true, h2, Bool.false_eq_true, if_false]
-      rw [skipBlock_body _ _ hc, skipWs_append _ _ ha, skipWs_token _ hr]
+      simp only [skipComment, beq_self_eq_true, if_true, h2, Bool.false_eq_true, if_false]
+      exact skipBlock_body _ _ h
+    rw [skipGap.eq_def, hstep]
+    rw [dif_pos (by simp [Comment.text]; omega)]
+
+/-- Any sequence of white space and comments: the lexer resumes exactly at the next token. -/
+theorem skipGap_gap : ∀ (g : Gap) (rest : List Nat), gapOk g = true → startsToken rest = true →
+    skipGap (gapText g ++ rest) = rest
+  | [], rest, _, hr => by simpa [gapText] using skipGap_token rest hr
+  | p :: ps, rest, hg, hr => by
+    simp only [gapOk, List.all_cons, Bool.and_eq_true] at hg
+    have ih := skipGap_gap ps rest (by simpa [gapOk] using hg.2) hr
+    simp only [gapText, List.append_assoc]
+    cases p with
+    | ws cs => rw [Piece.text, skipGap_ws _ _ (by simpa [Piece.ok] using hg.1), ih]
+    | comment c => rw [Piece.text, skipGap_comment _ _ (by simpa [Piece.ok] using hg.1), ih]
 
 end Dmn.GapLayout
